@@ -38,6 +38,27 @@ class Finding(object):
                                  self.message)
 
 
+def opaque_in(v, transparent=()):
+    """description of the first construct inside value(s) `v` that the
+    abstract interpreter kept symbolic without understanding it, or None"""
+    from .values import App, Sym, FRef, Bound, walk, V
+    vs = v if isinstance(v, (list, tuple)) else [v]
+    for one in vs:
+        if not isinstance(one, V):
+            continue
+        for x in walk(one):
+            if isinstance(x, App) and x.op == 'call':
+                fv = x.args[0]
+                fi = fv.fi if isinstance(fv, FRef) else (
+                    fv.f.fi if isinstance(fv, Bound) else None)
+                if fi is None or fi not in transparent:
+                    return repr(x)[:100]
+            elif isinstance(x, Sym) and x.meta and x.meta[0] in (
+                    'elem', 'next', 'widened', 'loopvar'):
+                return repr(x)
+    return None
+
+
 class RuleResult(object):
     """what one rule looked at"""
 
@@ -49,6 +70,8 @@ class RuleResult(object):
         self.discharged = 0
         self.findings = []
         self.notes = []
+        self.undecided = []
+        self.transparent = ()   # callees whose symbolic calls are expected
 
     def inst(self, **kw):
         self.instances.append(kw)
@@ -57,8 +80,23 @@ class RuleResult(object):
         self.obligations += n
         self.discharged += n
 
-    def fail(self, finding, n=1):
+    def fail(self, finding, n=1, witness=None, transparent=()):
+        """record a finding.  `witness`: the extracted value(s) the finding
+        is about -- when the mismatch is between an *expected shape* and what
+        was extracted.  If the witness contains something the interpreter
+        did not see through (the result of a call it kept symbolic, an
+        element taken from an iterator, a widened variable) the rule has
+        not established a violation: the obligation is recorded as
+        undecided (INCONCLUSIVE), not as a finding.  `transparent`: callees
+        (FuncInfo) whose symbolic calls are part of the expected shape."""
         self.obligations += n
+        if witness is not None:
+            why = opaque_in(witness, tuple(transparent) +
+                            tuple(self.transparent))
+            if why is not None:
+                self.undecided.append('%s %s: %s [not seen through: %s]' % (
+                    finding.rule, finding.where, finding.message[:200], why))
+                return
         self.findings.append(finding)
 
     def summary(self):
@@ -213,6 +251,11 @@ class Attempts(object):
                                  'on was undecided)' % what)
 
     def results(self, *rs):
+        out = self._results(*rs)
+        self._seen = getattr(self, '_seen', []) + out
+        return out
+
+    def _results(self, *rs):
         out = []
         for r in rs:
             if r is None:
@@ -225,6 +268,10 @@ class Attempts(object):
 
     def extra(self, d=None):
         d = dict(d or {})
-        if self.inconclusive:
-            d['undecided_rules'] = list(self.inconclusive)
+        und = list(self.inconclusive)
+        for r in getattr(self, '_seen', []):
+            for u in r.undecided:
+                und.append('INCONCLUSIVE ' + u)
+        if und:
+            d['undecided_rules'] = und
         return d
